@@ -205,8 +205,31 @@ def run(tier):
             val_bad.append((t, e, n))
     if exec_err:
         log("UNDISCHARGED: the MIR executor cannot run the current parse_size (%s) — property not decided on this tree" % exec_err)
-        write_evidence(ID, tier, {"evaluations": 1, "distinct_nontrivial": 0, "explanation": "encoding cannot execute the current code: " + exec_err, "samples": [exec_err]}, [], time.time() - t0, 0)
-        return 0
+        # native probe (sampling, reported as such; it discharges nothing): boundary tokens typed by the real parser vs the reference
+        probe = list(toks) + ["9KK", "1MM", "4kk", "1KM", "8388607G", "8388608G", "-8388608G", "-8388609G", "9007199254740991K", "9007199254740992K", "-9007199254740992K",
+                              "-9007199254740993K", "8796093022207M", "8796093022208M", "-8796093022209M", "-8589934593G", "-9223372036854775808K", "9223372036854775807K",
+                              "1éK", "éK", "1é", "K", "kK", "+K", "-M", "00K", "+0G", "1 K".replace(" ", ""), "0x1K", "1e3K", "1.0M"]
+        bad = None
+        for t in probe:
+            want = ref_value(t)
+            if want[0] == "bool":
+                continue
+            nd, rawd = native_value(exe_dev, t)
+            nr, rawr = native_value(exe_rel, t)
+            if nd != want or nr != want:
+                bad = {"value": t, "expected": want, "native_dev": rawd[:120], "native_release": rawr[:120], "check": "native probe (the encoding cannot execute this tree)", "n": len(t), "key": None}
+                break
+        nviol = 0
+        if bad:
+            os.makedirs(REPLAY_DIR, exist_ok=True)
+            path = os.path.join(REPLAY_DIR, "C15-parse_size.json")
+            with open(path, "w") as f:
+                json.dump(dict(bad, property=ID, engine="M", how="./check C15 --replay " + path), f, indent=1)
+            log("VIOLATION property=%s replay=%s" % (ID, path))
+            log("   config line `k %s`: expected %r, natively dev: %s / release: %s (native probe)" % (bad["value"], bad["expected"], bad["native_dev"], bad["native_release"]))
+            nviol = 1
+        write_evidence(ID, tier, {"evaluations": 1, "distinct_nontrivial": 0, "explanation": "encoding cannot execute the current code: " + exec_err + "; native probe of %d boundary tokens only" % len(probe), "samples": [exec_err]}, [], time.time() - t0, nviol)
+        return 1 if nviol else 0
     if val_bad:
         log("MACHINERY-ERROR: translator validation failed: encoding and native parser disagree on %d tokens, e.g. %r" % (len(val_bad), val_bad[0]))
         write_evidence(ID, tier, {"evaluations": len(toks), "distinct_nontrivial": 0, "explanation": "translator validation failed", "samples": [repr(val_bad[0])]}, [], time.time() - t0, 0)
